@@ -133,12 +133,13 @@ theorem IOk.ev_pure {e : Expr} {st : St} {v : Val} {out : List Event}
     (hv : eval st.look e = .ok v) (ho : renderVal v = .ok out) : IOk (.ev (.xexpr (.pure e))) st out st :=
   ⟨1, by simp [run, hv, ho, bind, Except.bind, pure, Except.pure]⟩
 
-theorem IOk.ev_call {f args} {st s1 : St} {o : List Event} {vs m scope}
-    (hvs : evalArgs st.look args = .ok vs) (hm : getMacro st (st.look f) = .ok m)
+theorem IOk.ev_call {f args} {st s1 : St} {o : List Event} {fv vs m scope}
+    (hfv : eval st.look f = .ok fv)
+    (hvs : evalArgs st.look args = .ok vs) (hm : getMacro st fv = .ok m)
     (hsc : bindParams m.params vs = .ok scope) (h : IOk (.apply m.dirs m.body) (st.push scope) o s1) :
     IOk (.ev (.xexpr (.call f args))) st o s1.pop := by
   obtain ⟨k, h⟩ := h
-  exact ⟨k + 1, by simp [run, hvs, hm, hsc, h, bind, Except.bind, mapSt]⟩
+  exact ⟨k + 1, by simp [run, hfv, hvs, hm, hsc, h, bind, Except.bind, mapSt]⟩
 
 def PProp (n : Nat) : Prop :=
   ∀ (T : ITask) (st st' : St) (o : List Event) (s1 : St),
@@ -221,7 +222,7 @@ theorem param_step (n : Nat) (hP : ∀ k, k < n → PProp k) (hN : ∀ k, k < n 
         exact ⟨st', IOk.ev_pure (by rw [hlook]; exact hv) hout, hr⟩
       | call f args =>
         simp only [run, bind_ok, mapSt_ok] at h
-        obtain ⟨vs, hvs, mc, hmc, scope, hsc, s2, h2, rfl⟩ := h
+        obtain ⟨fv, hfv, vs, hvs, mc, hmc, scope, hsc, s2, h2, rfl⟩ := h
         obtain ⟨mc', hmc', hrel⟩ := getMacro_rel hr hmc
         have hpush := hr.push scope
         have hsc' : bindParams mc'.params vs = .ok scope := by rw [← hrel.params]; exact hsc
@@ -237,7 +238,7 @@ theorem param_step (n : Nat) (hP : ∀ k, k < n → PProp k) (hN : ∀ k, k < n 
             simp only [run] at h2
             exact hN' j (by omega) pre stay body _ _ _ _ hp h2 hpush
         obtain ⟨s2', r, g⟩ := key
-        exact ⟨s2'.pop, IOk.ev_call (by rw [hlook]; exact hvs) (by rw [hlook]; exact hmc') hsc' r, g.pop⟩
+        exact ⟨s2'.pop, IOk.ev_call (by rw [hlook]; exact hfv) (by rw [hlook]; exact hvs) hmc' hsc' r, g.pop⟩
     | sub ds body =>
       simp only [run] at h
       obtain ⟨s1', r, g⟩ := hP k hk _ _ _ _ _ h hr
